@@ -1,5 +1,6 @@
 import AioslskVerif.Model.Wire
 import AioslskVerif.Model.Obfs
+import AioslskVerif.Spec.WireSpec
 /-!
 Line protocol for K_C01 / K_C02a (codec) — executes the definitions of `Model/Wire.lean`,
 `Model/Obfs.lean` on the regenerated schema table.
@@ -12,6 +13,7 @@ Commands:
   `dec <family> <dir> <hex frame> <hex|-|!>`  → `ok <idx> <k> v₁ … vₖ` | `err <class>`
         4th arg: what `zlib.decompress(frame[4+idw:])` returns on the Python side (`-` = empty
         string, `!` = zlib.error); used only if the selected schema is compressed
+  `dom <schema idx> <k> v₁ … vₖ`             → `dom 1|0`  (`inDomain`, the hypothesis of the theorems)
   `obf <key hex8> <hex|->`                    → `<hex>`      (`obfuscation.encode(data, key)`)
   `deobf <hex>`                               → `<hex|->`    (`obfuscation.decode(data)`)
 -/
@@ -97,6 +99,13 @@ def handle (table : List MsgSchema) (line : String) : String :=
         match encodeFrame { deflate := id, inflate := some } s vs with
         | some b => s!"ok {toHex b}"
         | none => "err"
+      | _, _ => "bad-op"
+    | _, _ => "bad-op"
+  | "dom" :: idx :: k :: rest =>
+    match idx.toNat?, k.toNat? with
+    | some idx, some k =>
+      match table[idx]?, parseVals k rest with
+      | some s, some (vs, []) => if inDomain s vs then "dom 1" else "dom 0"
       | _, _ => "bad-op"
     | _, _ => "bad-op"
   | ["dec", fam, dir, hex, infl] =>
